@@ -14,29 +14,34 @@ Lines == ndJsonDeserialize(IOEnv.REC)
 Res(r) == [feature |-> r.npoly = 1 /\ ~r.crash, polys |-> r.polys]
 RunIdx(ln) == 1 .. Len(ln.got.runs)
 
-\* the case must be a cut of its ground truth (guards the Judge against a broken generator / renderer input)
-CaseOK(c) == /\ \A i \in 1 .. Len(c.members) : DirOf(c.g, c.members[i].nodes) # 0 /\ DirOf(c.g, c.members[i].nodes) = c.members[i].dir
-             /\ \A r \in 1 .. Len(c.g) : \A i \in 1 .. c.g[r].n :
-                   LET v == Sym(r, i) IN
-                   \* every edge v -> Succ(v) of every ring is covered by exactly one member, in one direction
-                   Cardinality({<<m, j>> \in UNION {{<<m, j>> : j \in 1 .. Len(c.members[m].nodes) - 1} : m \in 1 .. Len(c.members)} :
-                                   {c.members[m].nodes[j], c.members[m].nodes[j + 1]} = {v, Succ(c.g, v)}
-                                   /\ (c.g[r].n > 2)}) = 1
-             /\ \A m \in 1 .. Len(c.members) : c.members[m].role = RoleOf(c.g, RingNo(c.members[m].nodes[1]))
+\* the case must be a cut of its ground truth (guards the Judge against a broken generator / renderer input):
+\* every way walks along one ring, carries its true direction and the role of its ring, and the ways cover
+\* every edge of every ring exactly once
+CaseOK(c) ==
+  LET ms == c.members
+      edges == UNION {{{ms[m].nodes[j], ms[m].nodes[j + 1]} : j \in 1 .. Len(ms[m].nodes) - 1} : m \in 1 .. Len(ms)}
+      total == LET RECURSIVE Sum(_) Sum(m) == IF m = 0 THEN 0 ELSE Len(ms[m].nodes) - 1 + Sum(m - 1) IN Sum(Len(ms))
+      ringEdges == LET RECURSIVE SumN(_) SumN(r) == IF r = 0 THEN 0 ELSE c.g[r].n + SumN(r - 1) IN SumN(Len(c.g))
+  IN /\ \A i \in 1 .. Len(ms) : DirOf(c.g, ms[i].nodes) # 0 /\ DirOf(c.g, ms[i].nodes) = ms[i].dir
+                                 /\ ms[i].role = RoleOf(c.g, RingNo(ms[i].nodes[1]))
+     /\ \A r \in 1 .. Len(c.g) : c.g[r].n >= 3
+     /\ Cardinality(edges) = total /\ total = ringEdges
+     /\ \A k \in 1 .. Len(c.masks) : Len(c.masks[k]) = Len(ms)
 
 Clauses(ln) ==
   LET c == ln.case
       runs == ln.got.runs
       none(i) == \A k \in 1 .. Len(c.masks[runs[i].m]) : ~c.masks[runs[i].m][k]
+      geom == [i \in RunIdx(ln) |-> GeomOf(Res(runs[i]))]
+      pgeom == GeomOf(Res(ln.got.pipe))
   IN   {"RingsRecovered" : i \in {i \in RunIdx(ln) : ~RingsRecovered(c.g, Res(runs[i]))}}
   \cup {"RingsRecovered(annotated by annotate.Relations)" : x \in {1} \ {y \in {1} : RingsRecovered(c.g, Res(ln.got.pipe))}}
   \cup {"SameForBothCoordinateSources" :
-          p \in {p \in RunIdx(ln) \X RunIdx(ln) : runs[p[1]].m = runs[p[2]].m /\ runs[p[1]].src # runs[p[2]].src
-                                                   /\ ~SameGeom(Res(runs[p[1]]), Res(runs[p[2]]))}}
+          p \in {p \in RunIdx(ln) \X RunIdx(ln) : p[1] < p[2] /\ runs[p[1]].m = runs[p[2]].m /\ runs[p[1]].src # runs[p[2]].src
+                                                   /\ geom[p[1]] # geom[p[2]]}}
   \cup {"SameWithOrWithoutOrientation" :
-          p \in {p \in RunIdx(ln) \X RunIdx(ln) : runs[p[1]].src = runs[p[2]].src /\ none(p[1])
-                                                   /\ ~SameGeom(Res(runs[p[1]]), Res(runs[p[2]]))}
-                \cup {p \in RunIdx(ln) \X {0} : none(p[1]) /\ runs[p[1]].src = ln.got.pipe.src /\ ~SameGeom(Res(runs[p[1]]), Res(ln.got.pipe))}}
+          p \in {p \in RunIdx(ln) \X RunIdx(ln) : runs[p[1]].src = runs[p[2]].src /\ none(p[1]) /\ geom[p[1]] # geom[p[2]]}
+                \cup {p \in RunIdx(ln) \X {0} : none(p[1]) /\ runs[p[1]].src = ln.got.pipe.src /\ geom[p[1]] # pgeom}}
   \cup {"OrientationAnnotated" : x \in {1} \ {y \in {1} : ln.got.annerr = "" /\ OrientationAnnotated(c.g, c.members, ln.got.annot)}}
 
 \* exact prediction by the Model
